@@ -581,8 +581,14 @@ func TestVerifC10(t *testing.T) {
 		case "read":
 			c.Steps = append(c.Steps, advStep{At: fl.at, Kind: "readerr", Err: parts[1]})
 			expect = map[string]string{"syscall": "redial", "perm": "error", "other": "error", "eintr": "redial", "emfile": "redial", "op-netdown": "redial"}[parts[1]]
-		case "timeouts", "timeoutsinv":
+		case "timeouts", "timeoutsinv", "timeoutssys":
 			fmt.Sscan(parts[1], &nTimeouts)
+			toKind := "timeout"
+			if parts[0] == "timeoutssys" {
+				// the same policy whatever shape the time-out has: here the system call's
+				// own (EAGAIN under a *net.OpError), which is ALSO a system call error
+				toKind = "timeout-sys"
+			}
 			for j := 0; j < nTimeouts; j++ {
 				if parts[0] == "timeoutsinv" {
 					// invalid messages between the time-outs are dropped inside the
@@ -591,7 +597,7 @@ func TestVerifC10(t *testing.T) {
 						c.Steps = append(c.Steps, advStep{At: fl.at, Kind: "msg", Msg: []string{"rs", "ra", "ns"}[q%3], Src: fmt.Sprintf("fe80::bad:%x", q+1), Hop: 64})
 					}
 				}
-				c.Steps = append(c.Steps, advStep{At: fl.at, Kind: "readerr", Err: "timeout"})
+				c.Steps = append(c.Steps, advStep{At: fl.at, Kind: "readerr", Err: toKind})
 			}
 			if nTimeouts >= 5 {
 				expect = "error"
@@ -690,7 +696,7 @@ func TestVerifC10(t *testing.T) {
 		// locate the fault instant in the trace
 		faultT := vNever
 		for _, e := range ev {
-			if (e.Kind == "read_error" && e.Err != vfake.ErrTimeout.Error()) || e.Kind == "link_event" || (e.Kind == "write_end" && e.Err != "") {
+			if (e.Kind == "read_error" && !vIsTimeout(e.Err)) || e.Kind == "link_event" || (e.Kind == "write_end" && e.Err != "") {
 				faultT = e.T
 				break
 			}
@@ -699,7 +705,7 @@ func TestVerifC10(t *testing.T) {
 			// the fifth time-out is returned after back-offs 0+50+100+150 ms, the
 			// error after one more back-off of 200 ms
 			for _, e := range ev {
-				if e.Kind == "read_error" && e.Err == vfake.ErrTimeout.Error() {
+				if e.Kind == "read_error" && vIsTimeout(e.Err) {
 					faultT = e.T + 500*vMs
 					break
 				}
@@ -799,7 +805,7 @@ func TestVerifC10(t *testing.T) {
 		if strings.HasPrefix(parts[0], "timeouts") && vTiming {
 			var ts []time.Duration
 			for _, e := range ev {
-				if e.Kind == "read_error" && e.Err == vfake.ErrTimeout.Error() {
+				if e.Kind == "read_error" && vIsTimeout(e.Err) {
 					ts = append(ts, e.T)
 				}
 			}
@@ -830,11 +836,11 @@ func TestVerifC10(t *testing.T) {
 	}
 
 	kinds := []string{"read:syscall", "read:perm", "read:other", "read:eintr", "read:emfile", "read:op-netdown", "timeouts:1", "timeouts:2", "timeouts:3", "timeouts:4", "timeouts:5", "timeouts:6",
-		"timeoutsinv:1", "timeoutsinv:3", "timeoutsinv:4", "timeoutsinv:5", "spreadtimeouts:5", "spreadtimeouts:6", "spreadtimeouts:12",
+		"timeoutsinv:1", "timeoutsinv:3", "timeoutsinv:4", "timeoutsinv:5", "spreadtimeouts:5", "spreadtimeouts:6", "spreadtimeouts:12", "timeoutssys:2", "timeoutssys:4", "timeoutssys:5", "timeoutssys:7",
 		"linkondial", "write:nobufs", "write:perm", "write:other", "write:op-nobufs", "write:op-acces", "writepending:nobufs", "writepending:other", "writeall:nobufs", "writeall:perm", "link", "watchclose", "spacing:link", "spacing:read", "stalledpeer:x"}
 	// the same read-side faults against a Monitor task
 	mreps := r.Pick(4, 150)
-	for _, k := range []string{"read:syscall", "read:perm", "read:other", "read:eintr", "read:emfile", "timeouts:1", "timeouts:4", "timeouts:5", "timeouts:6", "spreadtimeouts:5", "spreadtimeouts:9", "link", "linkondial", "watchclose"} {
+	for _, k := range []string{"read:syscall", "read:perm", "read:other", "read:eintr", "read:emfile", "timeouts:1", "timeouts:4", "timeouts:5", "timeouts:6", "spreadtimeouts:5", "spreadtimeouts:9", "timeoutssys:4", "timeoutssys:5", "link", "linkondial", "watchclose"} {
 		for rep := 0; rep < mreps; rep++ {
 			at := 4*time.Second + time.Duration(rr.Int63n(int64(8*time.Second)))
 			run(fmt.Sprintf("monfault/%s/%d", k, rep), fault{k, at}, false, 0, rr.Int63n(1e9))
